@@ -41,7 +41,7 @@ def fr(p):
     return Fraction(p[0], p[1])
 
 TOL = 1e-5
-STATS = {'skipped_borderline_2d': 0, 'compared_2d': 0, 'interior_cells_checked': 0, 'cells_replaced_by_outlier_rule': 0}
+STATS = {'cases_with_outlier_replacement_2d': 0, 'skipped_borderline_2d': 0, 'compared_2d': 0, 'interior_cells_checked': 0, 'cells_replaced_by_outlier_rule': 0}
 
 
 def qlist(xs):
@@ -226,7 +226,7 @@ def _select(P):
         return None
     sel = r['interior'] & ~r['replaced'] & (not r['borderline'])
     STATS['cells_replaced_by_outlier_rule'] += int(np.sum(r['replaced'] & r['interior']))
-    return ([r['vol'][i] for i in inv], [bool(sel[i]) for i in inv], [cnt[i] for i in inv])
+    return ([r['vol'][i] for i in inv], [bool(sel[i]) for i in inv], [cnt[i] for i in inv], r['borderline'])
 
 
 # ================================================================================================
@@ -328,6 +328,8 @@ def cmp_2d(c, o, m):
         STATS['skipped_borderline_2d'] += 1   # a cell area (numerically) equal to the outlier bound: float decides either way
         return None
     STATS['compared_2d'] += 1
+    if any(r > ub for r in raw):
+        STATS['cases_with_outlier_replacement_2d'] += 1
     w = o['w']
     if len(w) != len(final):
         return f'length {len(w)} vs model {len(final)}'
@@ -357,7 +359,7 @@ def _check_variants(c, o, pts, dim, what_pts):
     base = _select(np.array(pts))
     if base is None:
         return None
-    vol, sel, cnt = base
+    vol, sel, cnt, _ = base
     # weight * count = cell volume for interior cells
     for i in range(n):
         if sel[i]:
@@ -376,8 +378,11 @@ def _check_variants(c, o, pts, dim, what_pts):
         if other is None:
             continue
         fac = abs(c['a']) ** dim if name == 'scaled' else 1.0
+        # scaling is claimed for every weight (far corners and outlier rule scale along); the rigid motions only for
+        # interior cells
+        everywhere = name == 'scaled' and not base[3] and not other[3]
         for i in range(n):
-            if sel[i] and other[1][i] and not rel_close(o[name][i], fac * w[i], fac * abs(w[i]), 2e-5):
+            if (everywhere or (sel[i] and other[1][i])) and not rel_close(o[name][i], fac * w[i], fac * abs(w[i]), 2e-5):
                 return (f'{name} (a={c["a"]}, t={c["t"]}): interior sample {pts[i]} weight {w[i]} -> {o[name][i]}, '
                         f'expected {fac * w[i]}')
     return None
@@ -727,6 +732,6 @@ FAMILIES = [
 
 def extra_checks(ctx):
     ctx.extra.setdefault('coverage', {})['c16_stats'] = dict(STATS)
-    ctx.notes.append(f'2-D correspondence: {STATS["compared_2d"]} cases compared, {STATS["skipped_borderline_2d"]} skipped because a cell '
+    ctx.notes.append(f'2-D correspondence: {STATS["compared_2d"]} cases compared ({STATS["cases_with_outlier_replacement_2d"]} with cells replaced by the outlier rule), {STATS["skipped_borderline_2d"]} skipped because a cell '
                      f'area coincides with the outlier bound; {STATS["interior_cells_checked"]} interior cells checked against their cell '
                      f'volume; {STATS["cells_replaced_by_outlier_rule"]} bounded cells replaced by the outlier rule were not held to it')
